@@ -9,9 +9,15 @@
 //	    uploads the planned permanode <key> (its ref must be <refhex>), then the claims
 //	    set dateCreated=<dc> (if any), add tag=a / tag=b (tags ∈ -,a,b,ab), add extra=x<i> …,
 //	    the i-th claim dated d_i (attribute claims before 2020-09-13).  Answer: "ok <anytime|none> <modtime|none>" as the corpus reports them.
-//	q <c|m|C|r> <all|a|b|t|n> <limit> <continuehex|->
+//	q <c|m|C|r> <all|a|b|t|n|y|z|p<prefixhex>> <limit> <continuehex|->
 //	    Query{constraint: Permanode{} | tag=a | tag=b | CamliType:permanode | and(tag=a, tag=b), Sort: CreatedDesc|LastModifiedDesc|CreatedAsc|BlobRefAsc, Limit, Continue}
 //	    Answer: "ok <i,j,…|-> <continuehex|->" (indices in pn order, "?" for an unknown ref), "err" or "panic".
+//	cc <pnidx> <fkey> <claimdate> <ft|none>
+//	    the claim camliContent=<file fkey> on permanode <pnidx>; the file (one chunk, unixMtime=<ft>) is
+//	    NOT given to the index yet.  Answer: the permanode's "ok <anytime> <modtime>".
+//	file <fkey>
+//	    the declared file's chunk and schema blob reach the index now (after the claim, possibly after
+//	    queries).  Answer: the "ok <anytime> <modtime>" of the permanode whose content it is.
 //	ar <c|m|C|r> <all|a|b> <limit> <pivothex> [<continuehex>]
 //	    the same with Around=<pivot> (and no continue token unless given).
 package c09
@@ -29,6 +35,7 @@ import (
 	"perkeep.org/pkg/index/indextest"
 	"perkeep.org/pkg/schema"
 	"perkeep.org/pkg/search"
+	"perkeep.org/pkg/test"
 
 	"verifharness/hk"
 )
@@ -43,7 +50,21 @@ type world struct {
 	h      *search.Handler
 	refs   []blob.Ref
 	pos    map[blob.Ref]int
+	hasCC  map[int]bool
+	files  map[string]*fileSpec
 }
+
+// fileSpec is a declared content file: the file schema blob (and its one chunk) is only handed to
+// the index by the "file" op – after the camliContent claim that names it.
+type fileSpec struct {
+	pn      int
+	ft      time.Time
+	hasFT   bool
+	indexed bool
+}
+
+// LastSource is the candidate source picked by the most recent Handler.Query (verif hook of pkg/search).
+var LastSource string
 
 type fataler struct{}
 
@@ -61,13 +82,14 @@ func newWorld() *world {
 	owner := index.NewOwner(indextest.KeyID, indextest.PubKey.BlobRef())
 	h := search.NewHandler(idx, owner)
 	h.SetCorpus(corpus)
-	return &world{idx: idx, corpus: corpus, id: id, h: h, pos: map[blob.Ref]int{}}
+	search.VerifSetCandSourceHook(func(name string) { LastSource = name })
+	return &world{idx: idx, corpus: corpus, id: id, h: h, pos: map[blob.Ref]int{}, hasCC: map[int]bool{}, files: map[string]*fileSpec{}}
 }
 
 var (
-	e9      = big.NewInt(1000000000)
-	minSec  = int64(-62167219200) // 0000-01-01T00:00:00Z
-	maxSec  = int64(253402300799) // 9999-12-31T23:59:59Z
+	e9     = big.NewInt(1000000000)
+	minSec = int64(-62167219200) // 0000-01-01T00:00:00Z
+	maxSec = int64(253402300799) // 9999-12-31T23:59:59Z
 )
 
 // AttrClaimCutoff (2020-09-13T12:26:40Z): claims that set attributes must be dated before it.
@@ -118,10 +140,8 @@ func (w *world) addPN(words []string) string {
 		return "bad-op"
 	}
 	key, refhex, dcs, tags, ds := words[1], words[2], words[3], words[4], words[5]
-	for _, c := range key {
-		if !(c >= 'a' && c <= 'z' || c >= '0' && c <= '9') {
-			return "bad-op"
-		}
+	if !keyOK(key) {
+		return "bad-op"
 	}
 	refb, ok := hk.UnHex(refhex)
 	if !ok {
@@ -141,10 +161,10 @@ func (w *world) addPN(words []string) string {
 	var tagl []string
 	switch tags {
 	case "-":
-	case "a", "b":
-		tagl = []string{tags}
-	case "ab":
-		tagl = []string{"a", "b"}
+	case "a", "b", "y", "ab", "ay", "by", "aby":
+		for _, c := range tags {
+			tagl = append(tagl, string(c))
+		}
 	default:
 		return "bad-op"
 	}
@@ -188,15 +208,97 @@ func (w *world) addPN(words []string) string {
 		i++
 	}
 	for _, tg := range tagl {
-		w.claim(schema.NewAddAttributeClaim(pn, "tag", tg), dates[i])
+		if tg == "y" {
+			w.claim(schema.NewSetAttributeClaim(pn, "camliNodeType", "foo"), dates[i])
+		} else {
+			w.claim(schema.NewAddAttributeClaim(pn, "tag", tg), dates[i])
+		}
 		i++
 	}
 	for ; i < len(dates); i++ {
 		w.claim(schema.NewAddAttributeClaim(pn, "extra", fmt.Sprintf("x%d", i)), dates[i])
 	}
+	return w.times(pn)
+}
+
+func (w *world) times(pn blob.Ref) string {
 	w.idx.RLock()
 	defer w.idx.RUnlock()
 	return "ok " + showTime(w.corpus.PermanodeAnyTime(pn)) + " " + showTime(w.corpus.PermanodeModtime(pn))
+}
+
+func keyOK(key string) bool {
+	if key == "" {
+		return false
+	}
+	for _, c := range key {
+		if !(c >= 'a' && c <= 'z' || c >= '0' && c <= '9') {
+			return false
+		}
+	}
+	return true
+}
+
+// the file schema blob of a declared content file and its single chunk
+func fileBlobs(fkey string, ft time.Time, hasFT bool) (chunk, file *test.Blob) {
+	contents := "contents of " + fkey
+	chunk = &test.Blob{Contents: contents}
+	m := schema.NewFileMap("f-" + fkey + ".txt")
+	m.PopulateParts(int64(len(contents)), []schema.BytesPart{{Size: uint64(len(contents)), BlobRef: chunk.BlobRef()}})
+	if hasFT {
+		m.SetModTime(ft)
+	}
+	js, err := m.JSON()
+	if err != nil {
+		panic(err)
+	}
+	return chunk, &test.Blob{Contents: js}
+}
+
+// cc <pnidx> <fkey> <claimdate> <ft|none>: the claim camliContent=<file fkey> – the file is NOT indexed yet
+func (w *world) addCC(words []string) string {
+	if len(words) != 5 {
+		return "bad-op"
+	}
+	i, err := strconv.Atoi(words[1])
+	if err != nil || strconv.Itoa(i) != words[1] || i < 0 || i >= len(w.refs) {
+		return "bad-op"
+	}
+	d, ok := parseNanos(words[3])
+	if !ok || d.IsZero() || d.Unix() == 0 || !d.Before(AttrClaimCutoff) {
+		return "bad-op"
+	}
+	var ft time.Time
+	hasFT := words[4] != "none"
+	if hasFT {
+		if ft, ok = parseNanos(words[4]); !ok || ft.IsZero() {
+			return "bad-op"
+		}
+	}
+	if !keyOK(words[2]) || w.hasCC[i] || w.files[words[2]] != nil {
+		return "bad-op"
+	}
+	_, fb := fileBlobs(words[2], ft, hasFT)
+	w.hasCC[i] = true
+	w.files[words[2]] = &fileSpec{pn: i, ft: ft, hasFT: hasFT}
+	w.claim(schema.NewSetAttributeClaim(w.refs[i], "camliContent", fb.BlobRef().String()), d)
+	return w.times(w.refs[i])
+}
+
+// file <fkey>: the chunk and the file schema blob reach the blob source and the index now
+func (w *world) addFile(words []string) string {
+	if len(words) != 2 {
+		return "bad-op"
+	}
+	f := w.files[words[1]]
+	if f == nil || f.indexed {
+		return "bad-op"
+	}
+	f.indexed = true
+	chunk, fb := fileBlobs(words[1], f.ft, f.hasFT)
+	w.id.Upload(chunk)
+	w.id.Upload(fb)
+	return w.times(w.refs[f.pn])
 }
 
 // RefOfKey is the ref the planned permanode <key> gets (signing is deterministic).
@@ -234,8 +336,23 @@ func (w *world) query(words []string) string {
 		q.Constraint = &search.Constraint{CamliType: schema.TypePermanode}
 	case "n":
 		q.Constraint = &search.Constraint{Logical: &search.LogicalConstraint{Op: "and", A: tagc("a"), B: tagc("b")}}
+	case "y", "z":
+		nt := &search.Constraint{Permanode: &search.PermanodeConstraint{Attr: "camliNodeType", Value: "foo"}}
+		q.Constraint = nt
+		if words[2] == "z" {
+			q.Constraint = &search.Constraint{Logical: &search.LogicalConstraint{Op: "and", A: nt, B: tagc("a")}}
+		}
 	default:
-		return "bad-op"
+		if !strings.HasPrefix(words[2], "p") {
+			return "bad-op"
+		}
+		pfx, ok := hk.UnHex(words[2][1:])
+		if !ok || len(pfx) == 0 {
+			return "bad-op"
+		}
+		q.Constraint = &search.Constraint{Logical: &search.LogicalConstraint{Op: "and",
+			A: &search.Constraint{Permanode: &search.PermanodeConstraint{}},
+			B: &search.Constraint{BlobRefPrefix: string(pfx)}}}
 	}
 	lim, err := strconv.ParseInt(words[3], 10, 32)
 	if err != nil || strconv.FormatInt(lim, 10) != words[3] {
@@ -295,15 +412,20 @@ func NewExec() func(w []string) string {
 				return "bad-op"
 			}
 			switch words[0] {
-			case "pn", "q", "ar":
+			case "pn", "q", "ar", "cc", "file":
 			default:
 				return "bad-op"
 			}
 			if wd == nil {
 				wd = newWorld()
 			}
-			if words[0] == "pn" {
+			switch words[0] {
+			case "pn":
 				return wd.addPN(words)
+			case "cc":
+				return wd.addCC(words)
+			case "file":
+				return wd.addFile(words)
 			}
 			return wd.query(words)
 		})
